@@ -67,6 +67,21 @@ Definition norm_val (v : fval) : fval :=
   end.
 
 (* ============================================================ small codecs *)
+Lemma nulfree_no_nul s : nulfree s = true -> has_nul s = false.
+Proof.
+  unfold nulfree, has_nul. induction s as [|c s IH]; [reflexivity|]. cbn [forallb existsb]. intros H.
+  apply andb_true_iff in H. destruct H as [Hc Hs]. rewrite (IH Hs). apply andb_true_iff in Hc.
+  destruct (N.eqb_spec c 0); [lia | reflexivity].
+Qed.
+Lemma wf_addr_no_nul a : wf_addr a = true -> has_nul (a_no a) = false.
+Proof. unfold wf_addr. intros H. apply andb_true_iff in H. apply nulfree_no_nul, H. Qed.
+Lemma existsb_false_forallb {A} (P Q : A -> bool) l :
+  (forall x, P x = true -> Q x = false) -> forallb P l = true -> existsb Q l = false.
+Proof.
+  intros HPQ. induction l as [|x l IH]; [reflexivity|]. cbn [forallb existsb]. intros H.
+  apply andb_true_iff in H. destruct H as [Hx Hl]. now rewrite (HPQ x Hx), (IH Hl).
+Qed.
+
 Lemma dec_cstr_enc s rest : nulfree s = true -> dec_cstr (enc_cstr s ++ rest) = Ok (s, rest).
 Proof.
   unfold enc_cstr. induction s as [|c s IH]; cbn [nulfree forallb app dec_cstr]; intros H.
@@ -221,6 +236,8 @@ Lemma dec_dests_enc sme dl b rest :
 Proof.
   intros Hs Hd. unfold enc_dests.
   destruct (N.ltb_spec 255 (N.of_nat (List.length sme + List.length dl))) as [|Hn]; [discriminate|].
+  rewrite (existsb_false_forallb wf_addr (fun a => has_nul (a_no a)) sme wf_addr_no_nul Hs).
+  rewrite (existsb_false_forallb nulfree has_nul dl nulfree_no_nul Hd). cbn [orb].
   intros [= <-]. unfold dec_dests. cbn [app dec_u8 obind].
   rewrite Nat2N.id. fold (enc_smes sme) (enc_dls dl). rewrite <- app_assoc.
   rewrite (dec_dests_loop_all sme dl [] [] rest Hs Hd). reflexivity.
@@ -248,6 +265,8 @@ Lemma dec_unsucc_enc l b rest :
 Proof.
   intros H. unfold enc_unsucc.
   destruct (N.ltb_spec 255 (N.of_nat (List.length l))) as [|Hn]; [discriminate|].
+  rewrite (existsb_false_forallb wf_rec (fun e => has_nul (a_no (fst e))) l
+             (fun e He => wf_addr_no_nul (fst e) (proj1 (proj1 (andb_true_iff _ _) He))) H).
   intros [= <-]. unfold dec_unsucc. rewrite <- app_comm_cons. cbn [dec_u8 obind]. rewrite Nat2N.id.
   change (flat_map _ l) with (enc_recs l). rewrite (dec_unsucc_loop_all l [] rest H). reflexivity.
 Qed.
@@ -508,7 +527,7 @@ Proof.
                     dec_fields lay ks b2 u_dec = Ok (map norm_val vs)).
     { intros seen' C1 C2 C3. eapply IH; eassumption. }
     destruct k, v; cbn [wf_field] in Hv; try discriminate; cbn [enc_field] in E1; cbn [ctx_ok] in Hctx; try discriminate.
-    + (* FCStr *) apply Ok_inj in E1. subst b1. cbn [dec_field]. rewrite (dec_cstr_enc _ _ Hv). cbn [obind norm_val].
+    + (* FCStr *) rewrite (nulfree_no_nul _ Hv) in E1. apply Ok_inj in E1. subst b1. cbn [dec_field]. rewrite (dec_cstr_enc _ _ Hv). cbn [obind norm_val].
       rewrite (Hcont seen Hctx Hseen); [reflexivity|]. intros Hs. rewrite (Hnot Hs). reflexivity.
     + (* FU8 *) apply Ok_inj in E1. subst b1. cbn [dec_field app dec_u8 obind norm_val].
       rewrite (Hcont seen Hctx Hseen); [reflexivity|]. intros Hs. rewrite (Hnot Hs). reflexivity.
@@ -523,7 +542,7 @@ Proof.
     + (* FRegDel *) apply Ok_inj in E1. subst b1. cbn [dec_field app dec_u8 obind norm_val].
       rewrite (wf_regdel_roundtrip r Hv).
       rewrite (Hcont seen Hctx Hseen); [reflexivity|]. intros Hs. rewrite (Hnot Hs). reflexivity.
-    + (* FAddr *) apply Ok_inj in E1. subst b1. cbn [dec_field]. rewrite (dec_addr_enc _ _ Hv). cbn [obind norm_val].
+    + (* FAddr *) rewrite (wf_addr_no_nul _ Hv) in E1. apply Ok_inj in E1. subst b1. cbn [dec_field]. rewrite (dec_addr_enc _ _ Hv). cbn [obind norm_val].
       rewrite (Hcont seen Hctx Hseen); [reflexivity|]. intros Hs. rewrite (Hnot Hs). reflexivity.
     + (* FDests *) apply andb_true_iff in Hv. destruct Hv as [Hs1 Hd1]. cbn [dec_field].
       rewrite (dec_dests_enc sme dl b1 b2 Hs1 Hd1 E1). cbn [obind norm_val].
@@ -808,7 +827,7 @@ Qed.
 
 (* ------------------------------------------------------------------ examples *)
 Definition ex_enquire : list fval := [VHeader {| h_len := 0; h_id := 0; h_status := 0; h_seq := 5 |}; VTags []].
-Definition ex_submit_resp : list fval := [VHeader {| h_len := 0; h_id := 0; h_status := 0; h_seq := 9 |}; VStr [65]].
+Definition ex_submit_resp : list fval := [VHeader {| h_len := 0; h_id := 0; h_status := 0; h_seq := 9 |}; VStr [65]; VTags []].
 Definition lay_of (id : N) : layout := match find_layout layouts id with Some l => l | None => hd_layout end.
 Definition C03_ex_f1 : bytes := frame_of (lay_of 2147483652, ex_submit_resp).
 Definition C03_ex_f2 : bytes := frame_of (lay_of 21, ex_enquire).
